@@ -34,7 +34,7 @@ func TestMain(m *testing.M) {
 			"SQL privileges granted on top of a read-only permission (ChangeSQLPrivileges GRANT INSERT to an R user) are not generated in histories: the property text does not say which of the two wins",
 			"Logout of one of several concurrent token logins of the same user is not asserted to kill that token (tokens of a user share one signing key by design); all tokens must be dead once the last login is logged out",
 			"a credential that survives a re-permissioning is only flagged when it is used beyond the user's CURRENT permissions (immudb terminates such sessions; the check does not require that)",
-			"expiry is established by polling the server's own session manager (SessionPresent): fixture 'idle' = 120ms inactivity timeout, no age limit; fixture 'age' = 4s age limit with the session kept active; guard every 10ms; a session the server still knows 60s later is reported as 'sessions do not expire'",
+			"expiry is established by polling the server's own session manager (SessionPresent): fixture 'idle' = 1.5s inactivity timeout, no age limit; fixture 'age' = 10s age limit with the session kept active; guard every 10ms; a session the server still knows 90s later is reported as 'sessions do not expire'",
 			"token expiry is exercised with TokenExpiryTimeMin=-1 (tokens are issued already expired), no wall-clock wait",
 			"pgsql wire protocol, REST gateway, mTLS and the embedded web console are not driven; maintenance mode (auth off) is out of scope of the auth-on matrix",
 			"DB-level side channels (timing, error text) are not examined",
